@@ -13,7 +13,7 @@ ENGINES = [
      "kind_free_text": "the real public client over loopback gRPC against scripted fake OxiaClient servers"},
     {"name": "coordx", "path": "harness/coordx", "serves_properties": ["C05", "C18", "C19"],
      "kind_free_text": "real ApplyClusterChanges / ensemble selector / load balancer / Coordinator over stub nodes, driven by rapid generators"},
-    {"name": "e2ex", "path": "harness/e2ex", "serves_properties": ["C12", "C14", "C15", "C17", "C20"],
+    {"name": "e2ex", "path": "harness/e2ex", "serves_properties": ["C08", "C12", "C14", "C15", "C17", "C20"],
      "kind_free_text": "the real public client against a real standalone server (loopback, on-disk), generated scenarios with real timers"},
     {"name": "walx", "path": "harness/walx", "serves_properties": ["C09", "C10"],
      "kind_free_text": "rapid state machine + crash/corruption image generator over the real WAL against a list model"},
